@@ -42,6 +42,11 @@ CLAIMED["C08"] = ("exploration",
    "CPU/memory verdict cases use >=3x margins; rows a pid-namespace init cannot produce (SIGXCPU/SIGXFSZ dropped by the kernel) are relaxed; container Execve has no time/memory bound of its own (cgroup), so only rlimit-driven verdicts are judged there.",
    "property-based testing (rapid) + enumerated workloads; probe self-report", "§3 C08")
 
+CLAIMED["C04"] = ("exploration",
+   "The generator walks the forkexec option lattice: all 16 combinations of the four flags that select one of the three differently ordered copies of the cap-drop/seccomp/sync code (Ptrace, Seccomp, UnshareCgroupAfterSync, SyncFunc) x credential/cap-drop variants x namespace sets are enumerated, and random cases add the remaining dimensions (NoNewPrivs, StopBeforeSeccomp, pivot root + mounts, host/domain name, work dir, clone-into-cgroup2, any namespace subset). The target is a probe that reports ids, capability sets, securebits, no_new_privs, seccomp mode, session, cwd and uts names, while the harness reads /proc/<pid>/{status,ns,cgroup} from the host; the harness plays the minimal tracer for ptrace/stop configurations.",
+   "Only the directions the statement gives are asserted (nothing is demanded of the capability sets when neither credentials nor cap dropping were requested; the bounding set is untouched by the code). Ptrace/StopBeforeSeccomp are not combined with a new pid namespace (documented limitation) nor StopBeforeSeccomp with a SyncFunc outside the ptrace+seccomp copy (Start blocks by construction).",
+   "generator-driven lattice enumeration + property-based testing (rapid); probe self-report and /proc observation", "§3 C04")
+
 NOT_YET = {}
 
 def main():
